@@ -10,7 +10,7 @@ Everything is derived from the syntax trees:
                     algebraic normal form of the condition with role atoms (xi, gi, fi, xj, gj, fj, xs, fs, ...).
 """
 import ast
-from .model import (AnalysisError, src, call_name, get_arg, params_of, dotted, loc, is_const, norm_stmt)
+from .model import (AnalysisError, src, call_name, get_arg, params_of, dotted, loc, is_const, norm_stmt, iter_base)
 from .nf import (Evaluator, Rat, PointV, ExprV, ConsV, TupleV, Opaque, SortError, to_rat)
 from . import flow
 
@@ -62,10 +62,8 @@ def _loop_target_names(target):
 
 
 def _iter_base(it):
-    """(base expression, enumerated?) for `enumerate(X)` or `X`."""
-    if isinstance(it, ast.Call) and call_name(it) == "enumerate" and len(it.args) == 1 and not it.keywords:
-        return it.args[0], True
-    return it, False
+    """(base expression, enumerated?) for `enumerate(X[, start])` or `X`."""
+    return iter_base(it)
 
 
 def analyse_generator(repo, fn, arity):
@@ -521,12 +519,28 @@ def _interp_stmt(repo, cls, fn, st, ctx, res, gens):
         ctx2 = dict(ctx)
         ctx2["env"] = dict(ctx["env"])
         if role is not None:
-            idx, el = _loop_target_names(st.target) if enum else (None, _loop_target_names(st.target)[1])
             depth = len([l for l in ctx["loops"] if l["kind"] == "samples"])
             suffix = "ij"[depth] if depth < 2 else "k%d" % depth
+            tgt = st.target
+            idx = None
+            if enum:
+                if not (isinstance(tgt, ast.Tuple) and len(tgt.elts) == 2 and isinstance(tgt.elts[0], ast.Name)):
+                    raise AnalysisError("loop target %s outside the analysed fragment" % src(tgt))
+                idx = tgt.elts[0].id
+                tgt = tgt.elts[1]
+            sample = role_atoms(role, suffix)
+            if isinstance(tgt, ast.Name):
+                el = tgt.id
+                ctx2["env"][el] = sample
+            elif isinstance(tgt, ast.Tuple) and len(tgt.elts) == 3 and all(isinstance(e, ast.Name) for e in tgt.elts):
+                # the sample is unpacked in the loop header
+                el = "<unpacked@%d>" % st.lineno
+                for e, v in zip(tgt.elts, sample.items):
+                    ctx2["env"][e.id] = v
+            else:
+                raise AnalysisError("loop target %s outside the analysed fragment" % src(tgt))
             ctx2["loops"] = ctx["loops"] + [{"kind": "samples", "role": role, "index": idx, "element": el,
                                              "suffix": suffix, "node": st, "iter": base}]
-            ctx2["env"][el] = role_atoms(role, suffix)
             if idx:
                 ctx2["env"][idx] = Opaque("index", suffix)
             _interp_block(repo, cls, fn, st.body, ctx2, res, gens)
